@@ -547,8 +547,8 @@ PROPS = {
                     "over {a, space, *, _} and <= 5 over {a, space, *, backtick} as ATX heading content, the family of 4-5 delimiter runs of "
                     "lengths 1..3 with varied separators (opener / closer refused by the multiple-of-3 rule / later closers), 20k (300k) random strings of "
                     "length 8..40, all spec.json examples inside the reference's alphabet (the reference must reproduce spec.json too); goldmark's bytes "
-                    "compared with the prescribed bytes, clause emphasis-differs. Known deviation under its own clause: a backslash escape at the start of "
-                    "the line after a `backslash, two spaces, line ending` hard break (escape-after-backslash-spaces-break-differs, KNOWN_FINDINGS). "
+                    "compared with the prescribed bytes, clause emphasis-differs. A repaired deviation keeps its own clause (a violation if it returns): a backslash escape at the start of "
+                    "the line after a `backslash, two spaces, line ending` hard break (escape-after-backslash-spaces-break-differs, `fixed:` in KNOWN_FINDINGS). "
                     "Theorems: emph_preserves_text, emph_sound_rules_1_8, emph_html_balanced, emph_html_text, emph_openers_bottom_is_optimisation. "
                     "Component cmlink (spec-side inline-link reference GM.Spec.CMLink, driver ops `cmspec link|linkr|linkrx|linkattr`): `[a](X)` for every X of "
                     "length <= 5 (6 thorough) and `[a](X` for <= 4 (5) over {a, space, <, >, (, ), \", backslash, newline, 0x01}; `[a](b T)`, `[a](<b>T)`, "
@@ -766,3 +766,15 @@ PROPS["C05"]["claim"] += (" END TO END (GM.Props.C05E2E): the formal statement o
     "last two need 'an opened block's node has its parser's kind'); no hypothesis about the inline phase remains: clause (a) by construction "
     "(clause_a_by_construction), root_is_document, heading levels, inline_nodes_legal, block_node_clauses, inline segments inside their block's lines and "
     "in order (inline_segments_inside_block_lines), unpadded, info / closure in range.")
+
+# ---- session 4, package escfix (notes/status_escfix.md): the models follow two repaired C02 defects ----
+PROPS["C02"]["claim"] += (" Two deviations found by the checks were repaired in /repo and the models follow the repaired code (package escfix): the "
+    "flag `escaped` of parseBlock is cleared at the top of the line loop, so a backslash never escapes across a line end (kernel-checked on the loop models "
+    "for ANY parsers and block: escape_state_does_not_cross_line_end, lineLoop_line_end_resets), and FindClosure's closing segment stops at the source offset "
+    "of the closer whatever the virtual padding of the peeked line (findClosure_stop_excludes_padding, block reader over lines with any paddings); the "
+    "failing inputs are regression cases of the components cmemph (clause escape-after-backslash-spaces-break-differs) and convert (clause "
+    "closer-on-padded-line-differs: hand-derived HTML for the label variants, the spaces-only twin for the title variants).")
+PROPS["C02"]["note"] = PROPS["C02"]["note"].replace("Known deviation reported under its own clause: tabs in list-item continuation indentation (KNOWN_FINDINGS).",
+    "Known deviation reported under its own clause: tabs in list-item continuation indentation (KNOWN_FINDINGS). Not expressible by the spec-side generator "
+    "(labels and titles of GM.Spec.CommonMark.RefDef are single-line): a label / title of a link reference definition that continues on a tab-padded "
+    "container line - covered by the regression list of component convert and by the model tie only.")
